@@ -156,6 +156,40 @@ def spellings(rng, ver, v):
     return [_case(rng, t) for t in out]
 
 
+def near_spellings(rng, ver, v):
+    """structured near-misses: one group one digit too long / too short, one group too many or
+    too few, bare numerals one digit off"""
+    out = []
+    n8 = ver // 8
+    o = ref_words(v, 8, n8)
+    h = ref_words(v, 16, ver // 16)
+    i = rng.randrange(n8)
+    for sep in ':-':
+        t = ['%02x' % x for x in o]
+        t[i] = '0' + t[i]
+        out.append(sep.join(t))
+        out.append(sep.join(['%02x' % x for x in o] + ['00']))
+        out.append(sep.join(['%02x' % x for x in o][:-1]))
+    j = rng.randrange(len(h))
+    for sep in ':-.':
+        t = ['%04x' % x for x in h]
+        t[j] = '0' + t[j]
+        out.append(sep.join(t))
+        out.append(sep.join(['%x' % x for x in h] + ['0']))
+        out.append(sep.join(['%x' % x for x in h][:-1]))
+    if ver == 48:
+        a, b = v >> 24, v & 0xffffff
+        for sep in ':-.':
+            out.append('%04x%s%06x' % (a & 0xffff, sep, b))
+            out.append('%06x%s%04x' % (a, sep, b & 0xffff))
+            out.append('0%06x%s%06x' % (a, sep, b))
+            out.append('%06x%s%06x0' % (a, sep, b))
+        out += ['%010x' % (v & (2 ** 40 - 1)), '%013x' % v]
+    else:
+        out += ['%015x' % (v & (2 ** 60 - 1)), '%017x' % v, '%012x' % (v & (2 ** 48 - 1)), '%011x' % (v & (2 ** 44 - 1))]
+    return [_case(rng, t) for t in out]
+
+
 def mutate(rng, s):
     k = rng.randrange(9)
     i = rng.randrange(len(s)) if s else 0
@@ -255,6 +289,10 @@ def generate(rng, tier):
                     t = mutate(rng, s)
                     version = rng.choice((None, None, ver, 112 - ver))
                     cases.append(Case('eui_parse %s %s' % (hexs(t), optint(version)), 'parse/mutant', ('parse', t, version)))
+            if rng.random() < 0.5:
+                for t in rng.sample(near_spellings(rng, ver, v), 6):
+                    version = rng.choice((None, ver))
+                    cases.append(Case('eui_parse %s %s' % (hexs(t), optint(version)), 'parse/near', ('parse', t, version)))
             # accessors under a random dialect
             d = rng.choice(dialects(ver))
             sp = rng.choice((None, None, '', ':', '-', '.', ' '))
